@@ -575,6 +575,9 @@ pub fn run_world<C: Check>(c: &C, prop: &str, tier: Tier, seed: u64, out_dir: &s
         prop, c.id(), runs, stats.counters.get("tx.ok").copied().unwrap_or(0), stats.counters.get("tx.refused").copied().unwrap_or(0),
         nviol.load(Ordering::Relaxed), nforeign.load(Ordering::Relaxed), stats.states.len(), stats.grams.len(), wall, d
     );
+    if nforeign.load(Ordering::Relaxed) * 2 > runs {
+        println!("  note: {} of {} histories of world {} were cut short by a clause of another property — this property was explored less than usual", nforeign.load(Ordering::Relaxed), runs, c.id());
+    }
     WorldReport {
         world: c.id(),
         runs,
